@@ -87,6 +87,9 @@ def _distribution(chk, results):
         if res.get('skipped'):
             d['skipped_unpicklable'] = d.get('skipped_unpicklable', 0) + 1
             continue
+        if res.get('crash'):
+            d['code_under_test_raised'] = d.get('code_under_test_raised', 0) + 1
+            continue
         nh = sum(1 for h in res['hops'] if h['obs'] not in ('none', 'error'))
         if res.get('memo_obs') is not None:
             d['heap_model_payloads'] = d.get('heap_model_payloads', 0) + 1
